@@ -679,5 +679,12 @@ def run(ctx) -> None:
     ctx.guard(r01_6)
     ctx.guard(_ec_length_guard)
     ctx.guard(r01_7)
+    # "valid under ... the algorithm named in its header": the verify primitives are called with exactly the RFC 7518 paddings (a PSS verifier that
+    # accepts any salt length accepts signatures the named algorithm does not define)
+    from .c07 import r07_1
+    ctx.guard_as("R01.11", r07_1)
+    # "the header members returned are the ones that were signed": key resolution on the consuming side never writes a kid into the received header
+    from .c14 import r14_2
+    ctx.guard_as("R01.11", r14_2)
     ctx.assume("pyca/cryptography verify primitives reject every forged signature (unforgeability is trusted)")
     ctx.assume("receiver types as inferred by mypy; class-hierarchy analysis for dynamic dispatch")
